@@ -15,9 +15,11 @@ import (
 	"net/http/httptest"
 	"regexp"
 	"strconv"
+	"strings"
 	"sync"
 	"time"
 
+	"github.com/charmbracelet/log"
 	"github.com/flamego/flamego"
 )
 
@@ -47,13 +49,34 @@ type ccOut struct {
 	Tag int    `json:"tag"`
 	URL string `json:"url"`
 	Wid int    `json:"wid"`
+	Log int    `json:"log"` // 10 x (Started / Completed lines of this request found in ITS OWN request-scoped logger) + lines of other requests found there
 	Scr int    `json:"scr"` // what the route handler finds under the scratch key that the middleware of the same request left in c.Params()
 }
 
 type ccGates struct {
+	logs    map[int]*ccBuf // request id -> what was written to the logger mapped for that request
 	on      bool
 	at      map[int]chan struct{}
 	release map[int]chan struct{}
+}
+
+// ccBuf is a goroutine-safe buffer (a logger may be written to by the wrong request, which is the point)
+type ccBuf struct {
+	mu sync.Mutex
+	b  []byte
+}
+
+func (b *ccBuf) Write(p []byte) (int, error) {
+	b.mu.Lock()
+	defer b.mu.Unlock()
+	b.b = append(b.b, p...)
+	return len(p), nil
+}
+
+func (b *ccBuf) String() string {
+	b.mu.Lock()
+	defer b.mu.Unlock()
+	return string(b.b)
 }
 
 func (g *ccGates) gate(id int) {
@@ -73,7 +96,11 @@ func ccFlame(g *ccGates) *flamego.Flame {
 		g.gate(id)
 		c.Map(&reqTag{id})
 		c.Params()["_scratch"] = strconv.Itoa(id) // the Params map belongs to this request alone
+		if lb := g.logs[id]; lb != nil {
+			c.Map(log.New(lb)) // a logger of this request's own (e.g. carrying its trace id): later handlers are given this one
+		}
 	})
+	f.Use(flamego.Logger())
 	f.Use(flamego.Recovery()) // development environment: the answer to a panic carries the formatted stack with source lines
 	f.Use(flamego.Renderer())
 	// two more middleware, added one by one: the middleware slice then has spare capacity (len 3, cap 4),
@@ -136,6 +163,7 @@ func ccRequest(rq ccReq) *http.Request {
 	r.Header.Set("X-Req-Id", strconv.Itoa(rq.ID))
 	r.Header.Set("X-Val", rq.Val)
 	r.Header.Set("X-K", "k")
+	r.RequestURI = path + "?rid=" + strconv.Itoa(rq.ID) + "&" // what the Logger middleware prints as the path
 	return r
 }
 
@@ -146,6 +174,10 @@ func ccReplay(raw json.RawMessage, idx int, tr *traceWriter) {
 	}
 	tr.emit(map[string]interface{}{"case": idx, "ev": "reset", "input": raw, "nt": len(c.Reqs) > 1})
 	g := &ccGates{on: len(c.Sched) > 0, at: map[int]chan struct{}{}, release: map[int]chan struct{}{}}
+	g.logs = map[int]*ccBuf{}
+	for _, rq := range c.Reqs {
+		g.logs[rq.ID] = &ccBuf{}
+	}
 	f := ccFlame(g)
 	type res struct {
 		out      ccOut
@@ -227,6 +259,18 @@ func ccReplay(raw json.RawMessage, idx int, tr *traceWriter) {
 	}
 	wg.Wait()
 	for i, rq := range c.Reqs {
+		own, foreign := 0, 0
+		for _, ln := range strings.Split(g.logs[rq.ID].String(), "\n") {
+			if !strings.Contains(ln, "Started") && !strings.Contains(ln, "Completed") {
+				continue
+			}
+			if strings.Contains(ln, "rid="+strconv.Itoa(rq.ID)+"&") {
+				own++
+			} else {
+				foreign++
+			}
+		}
+		results[i].out.Log = 10*own + foreign
 		tr.emit(map[string]interface{}{"ev": "resp", "req": rq, "out": results[i].out, "panicked": results[i].panicked})
 	}
 }
